@@ -299,7 +299,7 @@ fn unit_contrib(world: &World, s: &SendStep, idx: usize) -> Option<Contrib> {
 
 impl StepHandler for H16 {
     fn on_send(&mut self, world: &mut World, before: &ModelState, i: usize, s: &SendStep, o: &SendObs, stats: &mut Stats, out: &mut Vec<Finding>) {
-        let preds: Vec<(Reading, Pred)> = self.viable.iter().map(|r| (*r, predict(&world.root, before, s, *r))).collect();
+        let preds: Vec<(Reading, Pred)> = self.viable.iter().map(|r| (*r, super::predict_seen(world, before, s, o, *r))).collect();
         let pred = &preds[0].1;
         if !pred.structural {
             return;
